@@ -164,11 +164,13 @@ def _consecutive_ordered(tree, p1: Path, p2: Path, leaves_only: bool) -> bool:
 LEVEL_PREDS = ("EQ", "GE", "LE", "GT", "LT")
 
 
-def level(tree, pred: str, nonterminal: str, p1: Path, p2: Path) -> bool:
+def level(
+    tree, pred: str, nonterminal: str, p1: Path, p2: Path, include_self: bool = True
+) -> bool:
     """``level(PRED, NONTERMINAL, node_1, node_2)``.
 
-    Normative comment (``level_check``): "There has to be a common prefix of
-    both paths pointing to a `nonterminal` node, such that
+    Normative comment (``level_check``, both paragraphs): "There has to be a
+    common prefix of both paths pointing to a `nonterminal` node, such that
     EQ: the remaining path fragments do not point to any `nonterminal` node.
     GE: the remaining path fragment for `arg_1` does not point to any
     `nonterminal` nodes.
@@ -179,17 +181,31 @@ def level(tree, pred: str, nonterminal: str, p1: Path, p2: Path) -> bool:
     at least one `nonterminal` node.
     LT: the remaining path fragment for `arg_2` does not point to any
     `nonterminal` nodes, and the remaining path fragment for `arg_1` points to
-    at least one `nonterminal` node."
+    at least one `nonterminal` node.
 
-    Reading: for a common prefix q of p1 and p2 whose node is labelled
-    ``nonterminal``, the "remaining path fragment" of p_i visits the nodes at
+    It is also possible to be outside of any `nonterminal` scope; then, the
+    arguments may still be at the same of different levels. So, we also
+    consider the empty prefix."
+
+    Reading: the candidate prefixes q are the empty path () - ALWAYS, whatever
+    the root's label ("we also consider the empty prefix") - and every
+    non-empty common prefix of p1 and p2 whose node is labelled
+    ``nonterminal``.  The "remaining path fragment" of p_i visits the nodes at
     ``p_i[:k]`` for ``len(q) < k <= len(p_i)`` (everything strictly below q on
-    the way to, and including, node_i).  ``c_i(q)`` is the number of those
-    nodes labelled ``nonterminal``.  The predicate holds iff SOME such q
-    satisfies the condition for ``pred``.  (This matches the spec's example:
-    in ``{int x; {int y = x;}}`` the outer block is such a q for
-    ``level("GE", "<block>", decl, expr)``; in ``{{int x;} int y = x;}`` the only
-    common <block> prefix has an inner block on decl's fragment.)
+    the way to node_i; node_i itself is included iff ``include_self``).
+    ``c_i(q)`` is the number of those nodes labelled ``nonterminal``.  The
+    predicate holds iff SOME candidate q satisfies the condition for ``pred``.
+    (This matches the spec's example: in ``{int x; {int y = x;}}`` the outer
+    block is such a q for ``level("GE", "<block>", decl, expr)``; in
+    ``{{int x;} int y = x;}`` every candidate has the inner block on decl's
+    fragment.)
+
+    AMBIGUITY: the text does not say whether node_i itself belongs to its
+    "remaining path fragment".  ``include_self=True`` (default) counts it - the
+    fragment as a whole points to node_i; ``include_self=False`` only counts
+    the nodes strictly between q and node_i.  The two readings differ only
+    when node_1 or node_2 is itself labelled ``nonterminal``.
+    :func:`level_readings` returns both verdicts.
     """
     if pred not in LEVEL_PREDS:
         raise ValueError(f"unknown level predicate {pred!r}")
@@ -202,14 +218,15 @@ def level(tree, pred: str, nonterminal: str, p1: Path, p2: Path) -> bool:
         return node is not None and node.value == nonterminal
 
     def fragment_count(q: Path, p: Path) -> int:
-        return sum(1 for k in range(len(q) + 1, len(p) + 1) if labelled(p[:k]))
+        last = len(p) if include_self else len(p) - 1
+        return sum(1 for k in range(len(q) + 1, last + 1) if labelled(p[:k]))
 
     common = 0
     while common < min(len(p1), len(p2)) and p1[common] == p2[common]:
         common += 1
     for length in range(0, common + 1):
         q = p1[:length]
-        if not labelled(q):
+        if length > 0 and not labelled(q):
             continue
         c1, c2 = fragment_count(q, p1), fragment_count(q, p2)
         holds = {
@@ -222,6 +239,14 @@ def level(tree, pred: str, nonterminal: str, p1: Path, p2: Path) -> bool:
         if holds:
             return True
     return False
+
+
+def level_readings(tree, pred: str, nonterminal: str, p1: Path, p2: Path) -> Tuple[bool, bool]:
+    """``(verdict with include_self=True, verdict with include_self=False)``."""
+    return (
+        level(tree, pred, nonterminal, p1, p2, include_self=True),
+        level(tree, pred, nonterminal, p1, p2, include_self=False),
+    )
 
 
 #: name -> (function, number of leading non-path (string) arguments)
